@@ -102,8 +102,8 @@ func zzC12SumBand(n int, negative bool) {
 }
 func ZZ_C12_sum_band_positive_n1() { zzC12SumBand(1, false) }
 func ZZ_C12_sum_band_negative_n1() { zzC12SumBand(1, true) }
-func ZZ_C12_sum_band_positive_n2() { zzC12SumBand(2, false) }
-func ZZ_C12_sum_band_negative_n2() { zzC12SumBand(2, true) }
+func ZZ_C12_sum_band_positive_n2_X() { zzC12SumBand(2, false) }
+func ZZ_C12_sum_band_negative_n2_X() { zzC12SumBand(2, true) }
 
 // C08: every cut of a CONTIGUOUS-COUNTS block with several bins (dense source), weights whose varfloat
 // takes one byte (1,2,3,5,7) or nine bytes (0.3, 0.75), into every consumer kind
